@@ -36,10 +36,10 @@ static const QString NS_CLIENT = QStringLiteral("jabber:client");
 // ---------------------------------------------------------------------------------------------- stanza description
 using Opt = std::optional<QString>;
 
-struct MsgNode { QString tag, ns; Opt id, from, to, body; bool nested = false; };
+struct MsgNode { QString tag, ns; Opt id, from, to, body; bool nested = false; Opt type = {}; int extras = 0; };
 struct FwdNode { QString tag, ns; std::vector<MsgNode> kids; };
 struct Child { QString tag, ns, text; std::vector<FwdNode> kids; };
-struct Outer { QString tag = "message"; Opt id, from, to; bool junk = false; std::vector<Child> kids; };
+struct Outer { QString tag = "message"; Opt id, from, to; bool junk = false; std::vector<Child> kids; Opt type = {}; };
 
 static std::string pct(const QString &s)
 {
@@ -59,15 +59,15 @@ static std::string opt(const Opt &o) { return o ? "=" + pct(*o) : std::string("-
 
 static std::string opOf(const Outer &o)
 {
-    std::string s = "msg " + req(o.tag) + " " + opt(o.id) + " " + opt(o.from) + " " + opt(o.to) + " " + (o.junk ? "1" : "0") +
+    std::string s = "msg " + req(o.tag) + " " + opt(o.id) + " " + opt(o.from) + " " + opt(o.to) + " " + opt(o.type) + " " + (o.junk ? "1" : "0") +
         " " + std::to_string(o.kids.size());
     for (auto &c : o.kids) {
         s += " c " + req(c.tag) + " " + req(c.ns) + " " + req(c.text) + " " + std::to_string(c.kids.size());
         for (auto &f : c.kids) {
             s += " f " + req(f.tag) + " " + req(f.ns) + " " + std::to_string(f.kids.size());
             for (auto &m : f.kids)
-                s += " m " + req(m.tag) + " " + req(m.ns) + " " + opt(m.id) + " " + opt(m.from) + " " + opt(m.to) + " " + opt(m.body) +
-                    " " + (m.nested ? "1" : "0");
+                s += " m " + req(m.tag) + " " + req(m.ns) + " " + opt(m.id) + " " + opt(m.from) + " " + opt(m.to) + " " + opt(m.type) + " " + opt(m.body) +
+                    " " + (m.nested ? "1" : "0") + " " + std::to_string(m.extras);
         }
     }
     return s;
@@ -99,25 +99,49 @@ static void junk(QXmlStreamWriter &w, bool on, int k)
 }
 static void attr(QXmlStreamWriter &w, const char *n, const Opt &v) { if (v) w.writeAttribute(QString::fromLatin1(n), *v); }
 
+// further payload of an inner element (bit mask `extras`); every child carries an explicit xmlns so that the DOM does not
+// depend on the prefix rendering of the parent
+enum Extras { XSubject = 1, XThread = 2, XPrivate = 4, XReceipt = 8, XHint = 16, XUnknown = 32, ExtrasAll = 63 };
+static void leaf(QXmlStreamWriter &w, const char *tag, const char *ns, const char *text = nullptr)
+{
+    w.writeStartElement(QString::fromLatin1(tag)); w.writeAttribute("xmlns", QString::fromLatin1(ns));
+    if (text) w.writeCharacters(QString::fromUtf8(text));
+    w.writeEndElement();
+}
+static void forgedMessage(QXmlStreamWriter &w, const char *id)
+{
+    startEl(w, "message", NS_CLIENT);
+    w.writeAttribute("from", "victim@capulet.example/nested"); w.writeAttribute("to", "mallory@evil.example");
+    w.writeAttribute("id", QString::fromLatin1(id)); w.writeAttribute("type", "chat");
+    leaf(w, "body", "jabber:client", "FORGED-NESTED");
+    w.writeEndElement();
+}
+
 static void renderInner(QXmlStreamWriter &w, const MsgNode &m, int flags)
 {
     const bool nestedFirst = flags & NestedFirst;
     const bool pfx = (flags & PrefixInner) && !m.ns.isEmpty();
     startEl(w, m.tag, m.ns, pfx);
-    attr(w, "id", m.id); attr(w, "from", m.from); attr(w, "to", m.to);
-    w.writeAttribute("type", "chat");
+    attr(w, "id", m.id); attr(w, "from", m.from); attr(w, "to", m.to); attr(w, "type", m.type);
     auto nested = [&]() {
-        // a carbon wrapper inside the inner message: must never be unwrapped a second time
-        startEl(w, "sent", NS_CARBONS); startEl(w, "forwarded", NS_FWD); startEl(w, "message", NS_CLIENT);
-        w.writeAttribute("from", "victim@capulet.example/nested"); w.writeAttribute("to", "mallory@evil.example");
-        w.writeAttribute("id", "nested-id");
-        w.writeTextElement("body", "FORGED-NESTED");
-        w.writeEndElement(); w.writeEndElement(); w.writeEndElement();
+        // payloads inside the inner element that must never be unwrapped a second time:
+        // forwarded-in-forwarded / XEP-0297 forward, a carbon wrapper, a MAM result
+        startEl(w, "forwarded", NS_FWD); forgedMessage(w, "nested-fwd"); w.writeEndElement();
+        startEl(w, "sent", NS_CARBONS); startEl(w, "forwarded", NS_FWD); forgedMessage(w, "nested-carbon"); w.writeEndElement(); w.writeEndElement();
+        startEl(w, "result", "urn:xmpp:mam:2"); w.writeAttribute("id", "mam-1"); w.writeAttribute("queryid", "q1");
+        startEl(w, "forwarded", NS_FWD); forgedMessage(w, "nested-mam"); w.writeEndElement(); w.writeEndElement();
     };
     if (m.nested && nestedFirst) nested();
-    if (m.body) {
-        // with a prefixed parent the default namespace is still jabber:client here; the code only looks at the tag name
-        w.writeStartElement("body"); w.writeCharacters(*m.body); w.writeEndElement();
+    if (m.extras & XSubject) leaf(w, "subject", "jabber:client", "the subject <&>");
+    if (m.body) { w.writeStartElement("body"); w.writeAttribute("xmlns", NS_CLIENT); w.writeCharacters(*m.body); w.writeEndElement(); }
+    if (m.extras & XThread) leaf(w, "thread", "jabber:client", "0e3141cd80894871a68e6fe6b1ec56fa");
+    if (m.extras & XPrivate) leaf(w, "private", "urn:xmpp:carbons:2");
+    if (m.extras & XReceipt) leaf(w, "request", "urn:xmpp:receipts");
+    if (m.extras & XHint) leaf(w, "no-copy", "urn:xmpp:hints");
+    if (m.extras & XUnknown) {
+        w.writeStartElement("x"); w.writeAttribute("xmlns", "urn:example:ext"); w.writeAttribute("k", "v\"<"); w.writeAttribute("a", "1");
+        leaf(w, "y", "urn:example:ext", "t&t");
+        w.writeEndElement();
     }
     if (m.nested && !nestedFirst) nested();
     w.writeEndElement();
@@ -129,7 +153,7 @@ static QString render(const Outer &o, int flags)
     QXmlStreamWriter w(&xml);
     w.writeStartElement(o.tag);   // namespace inherited from the stream element, like on the wire
     attr(w, "id", o.id); attr(w, "from", o.from); attr(w, "to", o.to);
-    w.writeAttribute("type", o.tag == "iq" ? "result" : "chat");
+    attr(w, "type", o.type);
     int j = 0;
     for (auto &c : o.kids) {
         junk(w, o.junk, j++);
@@ -208,7 +232,26 @@ public:
     void receive(const QDomElement &e) { d->stream->handlePacketReceived(e); }
 };
 
-struct Event { char chan; QString id, from, to, body; bool fwd; };
+struct Event { char chan; QString id, from, to, body; bool fwd; QString type, xml; };
+
+static QString xmlOf(const QXmppMessage &m)
+{
+    QString out;
+    QXmlStreamWriter w(&out);
+    m.toXml(&w);
+    return out;
+}
+static QString typeName(const QXmppMessage &m)
+{
+    switch (m.type()) {
+    case QXmppMessage::Error: return "error";
+    case QXmppMessage::Normal: return "normal";
+    case QXmppMessage::Chat: return "chat";
+    case QXmppMessage::GroupChat: return "groupchat";
+    case QXmppMessage::Headline: return "headline";
+    }
+    return "?";
+}
 
 class Handler : public QXmppClientExtension, public QXmppMessageHandler
 {
@@ -216,7 +259,7 @@ public:
     std::vector<Event> *sink = nullptr;
     bool handleMessage(const QXmppMessage &m) override
     {
-        sink->push_back({ 'H', m.id(), m.from(), m.to(), m.body(), m.isCarbonForwarded() });
+        sink->push_back({ 'H', m.id(), m.from(), m.to(), m.body(), m.isCarbonForwarded(), typeName(m), xmlOf(m) });
         return false;
     }
 };
@@ -243,7 +286,7 @@ struct Rig {
         own = client.configuration().jidBare();
         auto rec = [this](char chan) {
             return [this, chan](const QXmppMessage &m) {
-                events.push_back({ chan, m.id(), m.from(), m.to(), m.body(), m.isCarbonForwarded() });
+                events.push_back({ chan, m.id(), m.from(), m.to(), m.body(), m.isCarbonForwarded(), typeName(m), xmlOf(m) });
             };
         };
         if (v2) {
@@ -281,7 +324,7 @@ static std::string showEvents(const std::vector<Event> &evs)
     for (size_t i = 0; i < evs.size(); i++) {
         auto &e = evs[i];
         if (i) s += ";";
-        s += std::string(1, e.chan) + "|" + pct(e.id) + "|" + pct(e.from) + "|" + pct(e.to) + "|" + pct(e.body) + "|" + (e.fwd ? "1" : "0");
+        s += std::string(1, e.chan) + "|" + pct(e.id) + "|" + pct(e.from) + "|" + pct(e.to) + "|" + pct(e.body) + "|" + pct(e.type) + "|" + (e.fwd ? "1" : "0");
     }
     return s;
 }
@@ -299,7 +342,62 @@ static bool sameAsInner(const Event &e, const MsgNode &m)
     return e.id == m.id.value_or(QString()) && e.from == m.from.value_or(QString()) && e.to == m.to.value_or(QString()) &&
         e.body == m.body.value_or(QString());
 }
-static void oracle(const Rig &rig, const Outer &o, const std::string &op)
+
+// canonical tree encoding of an element: tag{ns}[attributes sorted, namespace declarations dropped](own text)<children in order>
+static QString canon(const QDomElement &e)
+{
+    QStringList attrs;
+    const auto am = e.attributes();
+    for (int i = 0; i < am.count(); i++) {
+        const auto a = am.item(i).toAttr();
+        if (a.name() == "xmlns" || a.name().startsWith("xmlns:")) continue;
+        attrs << a.name() + "=" + a.value().toHtmlEscaped();
+    }
+    attrs.sort();
+    QString text, kids;
+    for (auto n = e.firstChild(); !n.isNull(); n = n.nextSibling()) {
+        if (n.isElement()) kids += canon(n.toElement());
+        else if (n.isText() || n.isCDATASection()) text += n.nodeValue();
+    }
+    return e.tagName() + "{" + e.namespaceURI() + "}[" + attrs.join(",") + "](" + text.toHtmlEscaped() + ")<" + kids + ">";
+}
+static QString lastText(const QDomElement &e, const QString &tag)
+{
+    QString t;
+    for (auto &k : elementKids(e)) if (k.tagName() == tag) t = k.text();
+    return t;
+}
+// (4) "exactly the inner message": the message handed to the application, serialised by its own toXml(), is compared
+// as a tree with the element it claims to be: id/to/from equal, type equal (RFC 6121: anything but the five names reads
+// as normal), body/subject/thread text equal (the library matches those three by tag name, the last one wins), and
+// every other child element present exactly once with identical canonical encoding (children of <message/> are
+// unordered; known extensions are re-serialised, unknown ones copied).
+// `deep` (used for unwrapped inner messages, whose payload the harness renders with explicit, non-empty namespaces):
+// full canonical encoding of every other child.  Not deep (used for the outer stanza delivered as it stands, whose
+// children include deliberately odd namespaces — empty, prefixed — that QXmppElement re-serialises differently, a codec
+// matter outside this property): the other children are compared as the set of their tag names (nothing added, nothing dropped).
+static bool deliveredIsElement(const QString &deliveredXml, const QDomElement &el, bool deep, QString *why)
+{
+    QDomDocument doc;
+    if (!doc.setContent(QStringLiteral("<w xmlns=\"jabber:client\">") + deliveredXml + QStringLiteral("</w>"), true)) { *why = "delivered message does not serialise to XML"; return false; }
+    const QDomElement d = doc.documentElement().firstChildElement();
+    for (auto a : { "id", "to", "from" })
+        if (d.attribute(a) != el.attribute(a)) { *why = QString("attribute ") + a; return false; }
+    static const QStringList types = { "error", "normal", "chat", "groupchat", "headline" };
+    const QString want = types.contains(el.attribute("type")) ? el.attribute("type") : QStringLiteral("normal");
+    if (d.attribute("type") != want) { *why = "type"; return false; }
+    static const QStringList byName = { "body", "subject", "thread" };
+    for (auto &t : byName) if (lastText(d, t) != lastText(el, t)) { *why = t; return false; }
+    QStringList dk, ek;
+    for (auto &k : elementKids(d)) if (!byName.contains(k.tagName())) dk << (deep ? canon(k) : k.tagName());
+    for (auto &k : elementKids(el)) if (!byName.contains(k.tagName())) ek << (deep ? canon(k) : k.tagName());
+    dk.sort(); ek.sort();
+    if (!deep) { dk.removeDuplicates(); ek.removeDuplicates(); }   // e.g. two <private/> collapse into the one isPrivate flag
+    if (dk != ek) { *why = "payload children differ: delivered " + dk.join(" ") + " vs element " + ek.join(" "); return false; }
+    return true;
+}
+
+static void oracle(const Rig &rig, const Outer &o, const QDomElement &outerEl, const std::string &op)
 {
     const char *gen = rig.v2 ? "v2" : "v1";
     // failing input = the whole history of this client when short, else its account switches with stanza counts in between
@@ -308,13 +406,37 @@ static void oracle(const Rig &rig, const Outer &o, const std::string &op)
     if (total < 6000) { for (auto &h : rig.history) hist += h + "; "; }
     else { int n = 0; for (auto &h : rig.history) { if (h[0] == 'm') n++; else { if (n) hist += "(" + std::to_string(n) + " stanzas); "; n = 0; hist += h + "; "; } } if (n) hist += "(" + std::to_string(n) + " stanzas); "; }
     const std::string replay = "history=[" + hist + "] own-now=" + req(rig.own) + " failing " + op;
-    const QString outerFrom = o.from.value_or(QString());
+    auto fail = [&](const char *what, const QString &detail = QString()) {
+        oracleFail(std::string("C11:") + gen + ":" + what, replay + (detail.isEmpty() ? std::string() : " detail=" + pct(detail.left(300))));
+    };
+    // the sender as the DOM has it (independent of the description) — THE rule: only the own bare JID may send carbons
+    const QString outerFrom = outerEl.attribute("from");
+    if (outerFrom != o.from.value_or(QString())) harnessBug("outer from differs from description", QString());
+    // every element of this stanza that is "a message wrapped as a carbon copy", found by walking the DOM
+    struct Cand { QDomElement msg; QString direction; };
+    std::vector<Cand> cands;
+    for (auto &c : elementKids(outerEl)) {
+        if (c.namespaceURI() != NS_CARBONS || (c.tagName() != "sent" && c.tagName() != "received")) continue;
+        for (auto &f : elementKids(c)) {
+            if (f.namespaceURI() != NS_FWD || f.tagName() != "forwarded") continue;
+            for (auto &m : elementKids(f)) if (m.namespaceURI() == NS_CLIENT && m.tagName() == "message") cands.push_back({ m, c.tagName() });
+        }
+    }
     bool bad = false;
+    QString outerRefXml; bool haveOuterRef = false;          // library parse of the outer stanza, serialised (computed once)
+    const Event *prev = nullptr; bool prevOk = false;         // handler and signal deliver the same message: judge its XML once
     for (auto &e : rig.events) {
         const bool carbonChannel = e.chan == 'S' || e.chan == 'V';
+        if (prev && prevOk && prev->xml == e.xml && prev->fwd == e.fwd && !carbonChannel && prev->chan != 'S' && prev->chan != 'V' &&
+            prev->id == e.id && prev->from == e.from && prev->to == e.to && prev->body == e.body) {
+            stat(std::string("oracle_") + gen + (e.fwd ? "_unwrapped_from_own" : "_ordinary"));
+            continue;
+        }
+        prev = &e; prevOk = false;
         if (e.fwd || carbonChannel) {
-            if (outerFrom != rig.own) { oracleFail(std::string("C11:") + gen + ":unwrapped-foreign-sender", replay); bad = true; continue; }
-            if (!e.fwd) { oracleFail(std::string("C11:") + gen + ":carbon-not-flagged", replay); bad = true; continue; }
+            stat(std::string("oracle_") + gen + "_sender_rule_evaluations");
+            if (outerFrom != rig.own) { fail("unwrapped-foreign-sender"); bad = true; continue; }
+            if (!e.fwd) { fail("carbon-not-flagged"); bad = true; continue; }
             bool found = false;
             for (auto &c : o.kids) {
                 if (c.ns != NS_CARBONS || (c.tag != "sent" && c.tag != "received")) continue;
@@ -328,19 +450,49 @@ static void oracle(const Rig &rig, const Outer &o, const std::string &op)
                     }
                 }
             }
-            if (!found) { oracleFail(std::string("C11:") + gen + ":presented-not-inner", replay); bad = true; continue; }
+            if (!found) { fail("presented-not-inner"); bad = true; continue; }
+            // all observable fields: serialised delivered message == one wrapped inner element (tree comparison), and
+            // == what the library's own parser makes of that element (byte comparison of toXml)
+            bool tree = false, same = false; QString why, firstWhy;
+            for (auto &cd : cands) {
+                if ((e.chan == 'S' && cd.direction != "sent") || (e.chan == 'V' && cd.direction != "received")) continue;
+                QXmppMessage ref; ref.parse(cd.msg);
+                const bool s1 = xmlOf(ref) == e.xml;
+                const bool t1 = deliveredIsElement(e.xml, cd.msg, true, &why);
+                if (!t1 && firstWhy.isEmpty()) firstWhy = why;
+                if (s1 && t1) { tree = same = true; break; }
+            }
+            if (!(tree && same)) { fail("presented-not-inner", "delivered " + e.xml + " :: " + firstWhy); bad = true; continue; }
             if (outerFrom.isEmpty()) stat(std::string("oracle_") + gen + "_accepted_with_empty_from_and_unconfigured_jid");
             stat(std::string("oracle_") + gen + "_unwrapped_from_own");
+            prevOk = true;
         } else {
             bool bodyOk = e.body.isEmpty();
             for (auto &c : o.kids) if (c.tag == "body" && c.text == e.body) bodyOk = true;
             if (e.from != outerFrom || e.id != o.id.value_or(QString()) || e.to != o.to.value_or(QString()) || !bodyOk) {
-                oracleFail(std::string("C11:") + gen + ":unflagged-foreign-content", replay); bad = true; continue;
+                fail("unflagged-foreign-content"); bad = true; continue;
             }
+            // delivered unchanged: the whole outer stanza, wrapper included (as an extension element nobody interprets)
+            if (!haveOuterRef) { QXmppMessage ref; ref.parse(outerEl); outerRefXml = xmlOf(ref); haveOuterRef = true; }
+            QString why;
+            if (outerRefXml != e.xml || !deliveredIsElement(e.xml, outerEl, false, &why)) { fail("unflagged-foreign-content", "delivered " + e.xml + " :: " + why); bad = true; continue; }
             stat(std::string("oracle_") + gen + "_ordinary");
+            prevOk = true;
         }
     }
-    if (o.tag != "message" && !rig.events.empty()) { oracleFail(std::string("C11:") + gen + ":message-from-non-message", replay); bad = true; }
+    if (o.tag != "message" && !rig.events.empty()) { fail("message-from-non-message"); bad = true; }
+    // enforced sender rule, evaluated on every stanza that carries a well-formed wrapped message from anybody but the
+    // own bare JID: nothing flagged may have surfaced (this is the same judgement as above, counted separately so the
+    // evidence shows how often the rule was actually exercised per generation)
+    if (!cands.empty() && outerFrom != rig.own) {
+        bool leaked = false;
+        for (auto &e : rig.events) leaked |= e.fwd || e.chan == 'S' || e.chan == 'V';
+        if (!leaked) stat(std::string("oracle_") + gen + "_foreign_wrappers_kept_closed");
+    }
+    if (o.tag == "message" && !rig.events.empty() && !rig.events[0].fwd) {
+        int nR = 0, nH = 0; for (auto &e : rig.events) { nR += e.chan == 'R'; nH += e.chan == 'H'; }
+        if (nR == 1 && nH == 1) stat(std::string("oracle_") + gen + "_not_unwrapped_delivered_once_as_ordinary");
+    }
     if (!bad) oraclePass()++;
 }
 
@@ -369,7 +521,7 @@ static void inject(Rig &rig, const Outer &o, int flags)
 
     std::string obs = std::string("h=") + (rig.handled == 1 ? "1" : "0") + " w=" + (rig.warned ? "1" : "0") + " " + showEvents(rig.events);
     corr(op, obs);
-    oracle(rig, o, op);
+    oracle(rig, o, kids[0], op);
     nStanzas++;
     bool anyFwd = false;
     for (auto &e : rig.events) anyFwd |= e.fwd;
@@ -439,7 +591,13 @@ static std::vector<Opt> senders(const QString &own, const QString &res)
 
 static MsgNode goodInner(const QString &from, const QString &to, const QString &body)
 {
-    return { "message", NS_CLIENT, std::nullopt, from, to, body, false };
+    return { "message", NS_CLIENT, std::nullopt, from, to, body, false, QStringLiteral("chat"), 0 };
+}
+// type attribute values: the five RFC 6121 names, absent, empty, unknown, wrong case
+static const std::vector<Opt> &typeValues()
+{
+    static const std::vector<Opt> v = { Opt("chat"), Opt("normal"), Opt("groupchat"), Opt("headline"), Opt("error"), Opt(), Opt("bogus"), Opt("Chat"), Opt(QString()) };
+    return v;
 }
 static Child wrap(const QString &tag, std::vector<FwdNode> f) { return { tag, NS_CARBONS, QString(), std::move(f) }; }
 static FwdNode fwd(std::vector<MsgNode> m) { return { "forwarded", NS_FWD, std::move(m) }; }
@@ -484,6 +642,24 @@ static std::vector<std::vector<Child>> shapes(const QString &own)
     v.push_back({ wrap("sent", { fwd({ a }) }), wrap("received", { fwd({ b }) }) });
     v.push_back({ wrap("received", {}), wrap("sent", { fwd({ b }) }) });
     for (auto t : { "Sent", "SENT", "private", "enable", "forwarded", "message", "sentx", "xsent" }) v.push_back({ wrap(t, { fwd({ a }) }) });
+    for (auto t : { "sent", "received" }) {
+        // forwarded inside forwarded: the message is one level too deep (and, second shape, next to a direct one)
+        MsgNode ff { "forwarded", NS_FWD, std::nullopt, std::nullopt, std::nullopt, std::nullopt, true };
+        v.push_back({ wrap(t, { fwd({ ff }) }) });
+        v.push_back({ wrap(t, { fwd({ ff, b }) }) });
+        // the inner message is itself "from" an attacker / from the victim / carries every extra payload / odd types
+        { MsgNode m = a; m.from = "mallory@evil.example/x"; m.extras = ExtrasAll; m.type = "groupchat"; v.push_back({ wrap(t, { fwd({ m }) }) }); }
+        { MsgNode m = b; m.extras = XPrivate | XThread; m.type = std::nullopt; v.push_back({ wrap(t, { fwd({ m }) }), textChild("private", NS_CARBONS, QString()) }); }
+        { MsgNode m = a; m.type = "error"; m.extras = XUnknown | XSubject; m.nested = true; v.push_back({ wrap(t, { fwd({ m }) }) }); }
+        { MsgNode m = a; m.type = "Headline"; m.extras = XReceipt | XHint; v.push_back({ wrap(t, { fwd({ m }) }) }); }
+        // a MAM result next to / before the carbon wrapper, and a carbon wrapper inside a MAM result's forwarded message
+        Child mam { "result", "urn:xmpp:mam:2", QString(), { fwd({ nested }) } };
+        v.push_back({ mam });
+        v.push_back({ mam, wrap(t, { fwd({ a }) }) });
+        v.push_back({ wrap(t, { fwd({ nested }) }), mam });
+        Child mamInCarbonsNs { "result", NS_CARBONS, QString(), { fwd({ a }) } };   // first carbons child is not sent/received
+        v.push_back({ mamInCarbonsNs, wrap(t, { fwd({ a }) }) });
+    }
     v.push_back({ textChild("body", NS_CLIENT, "plain message") });
     v.push_back({ textChild("body", NS_CLIENT, "first body"), textChild("body", "urn:other", "second body") });
     v.push_back({});
@@ -517,7 +693,7 @@ struct Gen {
         switch (rng.below(5)) { case 0: return own; case 1: return own + "/" + res; case 2: return own + "/other"; default: return pick(others); }
     }
     Opt optJid() { return pr(15) ? Opt() : Opt(jid()); }
-    QString tag1() { static const std::vector<QString> t = { "sent", "received", "private", "body", "x", "Sent", "forwarded", "enable", "thread" }; return pr(65) ? (rng.coin() ? "sent" : "received") : pick(t); }
+    QString tag1() { static const std::vector<QString> t = { "sent", "received", "private", "body", "x", "Sent", "forwarded", "enable", "thread", "result" }; return pr(65) ? (rng.coin() ? "sent" : "received") : pick(t); }
     QString ns1() { static const std::vector<QString> n = { "urn:xmpp:carbons:2", "urn:xmpp:carbons:1", "", "jabber:client", "urn:xmpp:carbons:2x", "urn:xmpp:forward:0", "urn:xmpp:mam:2" }; return pr(70) ? NS_CARBONS : pick(n); }
     QString tag2() { static const std::vector<QString> t = { "forwarded", "forward", "message", "delay", "sent" }; return pr(80) ? "forwarded" : pick(t); }
     QString ns2() { static const std::vector<QString> n = { "urn:xmpp:forward:0", "urn:xmpp:forward:1", "", "jabber:client", "urn:xmpp:carbons:2" }; return pr(80) ? NS_FWD : pick(n); }
@@ -527,7 +703,8 @@ struct Gen {
     MsgNode inner()
     {
         MsgNode m { tag3(), ns3(), pr(40) ? Opt("m" + QString::number(rng.below(5))) : Opt(), optJid(), optJid(),
-                    pr(85) ? Opt(pick(bodies())) : Opt(), pr(12) };
+                    pr(85) ? Opt(pick(bodies())) : Opt(), pr(12), pr(60) ? Opt("chat") : pick(typeValues()),
+                    pr(35) ? int(rng.below(ExtrasAll + 1)) : 0 };
         return m;
     }
     Outer outer()
@@ -538,6 +715,7 @@ struct Gen {
         o.from = pr(38) ? Opt(own) : (!formerOwns.empty() && pr(45)) ? Opt(pick(formerOwns)) : pick(snd);
         o.to = pr(70) ? Opt(own + "/" + res) : optJid();
         o.junk = pr(15);
+        o.type = o.tag == "iq" ? Opt("result") : o.tag == "presence" ? Opt() : pr(50) ? Opt("chat") : pick(typeValues());
         int nk = pr(50) ? 1 : rng.below(4);
         for (int i = 0; i < nk; i++) {
             Child c { tag1(), ns1(), QString(), {} };
@@ -610,9 +788,29 @@ int main(int argc, char **argv)
                  { "not-romeo@montague.example", "romeo@montague.example/garden", wrap("sent", { fwd({ sent }) }) },
                  { "mallory@evil.example/x", "romeo@montague.example/home", wrap("received", { fwd({ forged }) }) },
                  { "romeo@montague.example/other", "romeo@montague.example/home", wrap("sent", { fwd({ forged }) }) } }) {
-            Outer o; o.from = r.from; o.to = r.to; o.kids = { r.kid };
+            Outer o; o.from = r.from; o.to = r.to; o.kids = { r.kid }; o.type = "chat";
             inject(*rig, o, 0);
             stat("corpus_stanzas");
+        }
+        // sender-rule battery: {who sends} x {outer type} x {sent, received}; judged by the enforced oracle like everything else.
+        // The comparison in the code is exact and case-sensitive: only the first sender is ever unwrapped.
+        const QString own = rig->own;   // romeo@montague.example
+        const std::vector<std::pair<const char *, Opt>> who = {
+            { "own-bare", own }, { "own-full", own + "/home" }, { "own-full-other-resource", own + "/garden" },
+            { "other-bare", QString("juliet@capulet.example") }, { "other-full", QString("juliet@capulet.example/balcony") },
+            { "absent", Opt() }, { "empty", QString() },
+            { "malformed-at", QString("@") }, { "malformed-no-domain", QString("romeo@") }, { "malformed-resource-only", QString("/home") },
+            { "malformed-two-at", QString("romeo@@montague.example") }, { "malformed-empty-resource", own + "/" },
+            { "case-node", QString("ROMEO@montague.example") }, { "case-domain", QString("romeo@MONTAGUE.EXAMPLE") },
+            { "case-title", QString("Romeo@Montague.Example") }, { "case-one-letter", QString("romeO@montague.example") },
+        };
+        for (auto &w : who) for (auto &ty : typeValues()) for (auto t : { "sent", "received" }) {
+            MsgNode m = t == std::string("sent") ? sent : forged; m.from = t == std::string("sent") ? Opt(own + "/home") : Opt("mallory@evil.example/x");
+            Outer o; o.id = "bat"; o.from = w.second; o.to = own + "/home"; o.type = ty; o.kids = { wrap(t, { fwd({ m }) }) };
+            const size_t before = rig->events.size(); (void)before;
+            inject(*rig, o, 0);
+            bool unwrapped = false; for (auto &e : rig->events) unwrapped |= e.fwd;
+            stat(std::string("battery_") + (v2 ? "v2_" : "v1_") + w.first + (unwrapped ? "_unwrapped" : "_kept_closed"));
         }
     }
 
@@ -630,6 +828,7 @@ int main(int argc, char **argv)
                     o.from = snd[si];
                     o.to = rig->own + "/" + cfg.resource;
                     o.kids = shp[ki];
+                    o.type = typeValues()[(si + 2 * ki) % typeValues().size()];
                     o.junk = (si + ki) % 7 == 3;
                     inject(*rig, o, int((si * 7 + ki * 3) % 16));
                     systematic++;
@@ -638,6 +837,7 @@ int main(int argc, char **argv)
             // non-message stanzas carrying a well-formed wrapper from the own bare JID
             for (auto t : { "presence", "iq" }) {
                 Outer o; o.tag = t; o.id = "nm"; o.from = rig->own; o.kids = shp[0];
+                if (o.tag == "iq") o.type = "result";
                 inject(*rig, o, 0);
             }
         }
@@ -685,7 +885,7 @@ int main(int argc, char **argv)
                     const Sym &sy = alpha[idx[d]];
                     if (sy.account >= 0) reconfigure(*rig, acc[sy.account].fn, (d + idx[d]) % 2);
                     else {
-                        Outer o; o.id = "s" + QString::number(d); if (sy.present) o.from = sy.from;
+                        Outer o; o.id = "s" + QString::number(d); o.type = "chat"; if (sy.present) o.from = sy.from;
                         o.to = rig->own + "/r"; o.kids = sy.kids;
                         inject(*rig, o, 0);
                     }
